@@ -156,6 +156,11 @@ def run(run: common.Run):
             sv = make_valid(rng, src.h, src.w, case['mask'])
             if sv.sum() < 6:
                 sv[:] = True
+        if case['proc_ref'] and nb in (1, 3) and case['i'] % 6 == 2:
+            # 8-bit source whose validity is an alpha band with semi-transparent (1..254) valid pixels (the source values are
+            # integers 30..190)
+            case['src_nodata'] = 'alpha'
+            run.hist['source with a partly semi-transparent alpha band'] += 1
         pair = fusion.write_pair(tmp, 'c02', src, ref, s, r, sv, rv, src_nodata=case['src_nodata'],
                                  ref_nodata=case['ref_nodata'])
         try:
